@@ -34,6 +34,7 @@ type c06Req struct {
 	RecordAtFirstByte string
 	Final             bool
 	Start             time.Duration
+	Ident             string
 }
 
 var c06Mods = []string{"ps", "pgp", "jar", "cat", "appmanifest", "pe-coff", "msi", "vsix", "mach-o"}
@@ -62,6 +63,9 @@ func c06Run(r *core.Run) {
 		addSigningKeys(w, cfg, []string{"tokA", "tokB"}, "r1")
 		cfg.Clients[pki["client-fp-1"].Fingerprint] = &config.ClientConfig{Nickname: "alice", Roles: []string{"r1"}}
 		cfg.Clients[pki["client-fp-2"].Fingerprint] = &config.ClientConfig{Roles: []string{"r1"}}
+		// clients recognised through their issuing CA: the record names the
+		// subject of the certificate that was presented
+		cfg.Clients["ca1-group"] = &config.ClientConfig{Nickname: "ca1-people", Roles: []string{"r1"}, Certificate: string(pki["ca-1"].CertPEM)}
 		auditPath = w.Path("audit/audit.log")
 		if sinks != "amqp" {
 			cfg.AuditFile = auditPath
@@ -143,6 +147,11 @@ func c06Run(r *core.Run) {
 			if client[len(client)-1]%2 == 1 {
 				ident = "client-fp-2"
 			}
+			if t.Chance(1, 4, "ca-issued-caller") {
+				// two certificates of one CA for one key pair under two subjects
+				ident = core.Pick(t, "ca-issued-identity", "ca-1-client-a", "ca-1-client-a-renamed", "ca-1-client-b")
+			}
+			rq.Ident = ident
 			cur[w.Sched.Current()] = rq
 			resp := serve(h, reqSpec{Method: "POST", Path: "/sign", Query: rq.Case.query(rq.Key), Body: body, Peer: "192.0.2." + client[len(client)-1:] + ":4000", TLS: pki[ident],
 				ChunkSize: func(rem int) int { return 1 + t.Choose(65536, "chunk") },
@@ -282,9 +291,16 @@ func c06Run(r *core.Run) {
 				"client.ip":            "192.0.2." + rq.Client[len(rq.Client)-1:],
 				"sig.x509.fingerprint": fmt.Sprintf("%x", sum[:]),
 			}
-			if rq.Client[len(rq.Client)-1]%2 == 1 {
+			switch {
+			case strings.HasPrefix(rq.Ident, "ca-1-"):
+				want["client.name"] = "ca1-people"
+				if dn, _ := rec["client.dn"].(string); !strings.HasSuffix(dn, "CN="+world.PKI()[rq.Ident].Cert.Subject.CommonName) {
+					r.Failf("C06.record-content", "client.dn", "audit record says client.dn=%q, the caller presented a certificate for CN=%s: %s", dn, world.PKI()[rq.Ident].Cert.Subject.CommonName, desc)
+				}
+				r.Probe("ca-issued-caller-recorded")
+			case rq.Ident == "client-fp-2":
 				want["client.name"] = world.PKI()["client-fp-2"].Fingerprint[:12]
-			} else {
+			default:
 				want["client.name"] = "alice"
 			}
 			if c.PGP {
